@@ -562,6 +562,60 @@ def run(ctx: fw.Ctx):
     ctx.count("spec_disagreements", state["spec_bad"])
     ctx.count("side_condition_disagreements", state["flag_bad"])
     ctx.count("gen_seconds", int(time.time() - t0))
+    render_edit_render(ctx)
+
+
+def render_edit_render(ctx: fw.Ctx):
+    """Item assignment AFTER a first rendering: the next rendering denotes the new value (a rendering
+    must not be remembered past a later assignment, at any depth)."""
+    from nix_manipulator import parse
+    from nix_manipulator.expressions.set import AttributeSet
+
+    values = [5, "s", 'q"r', True, None, [1, 2], {"z": 1}, -3, 1.5]
+    shapes = [
+        ({"a": {"x": 1}, "b": 2}, ["a"], "x"), ({"a": {"x": 1}, "b": 2}, ["a"], "y"), ({"a": {"x": 1}, "b": 2}, [], "b"),
+        ({"p": {"q": {"r": 1}}}, ["p", "q"], "r"), ({"p": {"q": {"r": 1}}}, ["p"], "k"), ({"a": {"x": 1}}, [], "a"),
+    ]
+    for how in ("fromdict", "parsed"):
+        for d, keys, k in shapes:
+            for v in values:
+                def build():
+                    if how == "fromdict":
+                        return AttributeSet.from_dict(d)
+                    return parse(AttributeSet.from_dict(d).rebuild())
+                for op in ("set", "del"):
+                    if op == "del" and (keys, k) not in ((["a"], "x"), ([], "b"), (["p", "q"], "r")):
+                        continue
+                    c = {"context": "render-edit-render", "how": how, "d": d, "keys": keys, "k": k, "v": v, "op": op}
+                    ctx.case(c, True)
+                    try:
+                        obj = build()
+                        obj.rebuild()
+                        m = obj
+                        for kk in keys:
+                            m = m[kk]
+                        if op == "set":
+                            m[k] = v
+                        else:
+                            del m[k]
+                        text = obj.rebuild()
+                        got = cstread.read_data(text)
+                    except Exception as exc:  # noqa: BLE001
+                        ctx.fail({"clause": "render-edit-render", "outcome": type(exc).__name__, "how": how}, c,
+                                 f"render, {op} at {keys + [k]!r}, render again raised {type(exc).__name__}: {exc}")
+                        continue
+                    want = json.loads(json.dumps(d))
+                    w = want
+                    for kk in keys:
+                        w = w[kk]
+                    if op == "set":
+                        w[k] = v
+                    else:
+                        del w[k]
+                    if not cstread.same_data(got, want):
+                        ctx.fail({"clause": "render-edit-render", "outcome": "stale", "how": how}, {**c, "output": text},
+                                 f"after a first rendering, {op} at {keys + [k]!r} = {v!r}: the next rendering reads {got!r}, "
+                                 f"expected {want!r} ({text!r})")
 
 
 BATCH = 40000
